@@ -39,7 +39,7 @@ func (c *Ctx) checkScalar(s *edwards25519.Scalar, want *big.Int, what string, de
 
 // C07: scalar arithmetic is Z/l.
 func C07(c *Ctx) {
-	n := c.N(240000, 12000000) // each case is a batch of operations on one operand triple
+	n := c.N(240000, 96000000) // each case is a batch of operations on one operand triple
 	classes := gen.ScalarClasses()
 	for i := int64(0); i < n; i++ {
 		if !c.Mine(i) {
